@@ -259,6 +259,10 @@ impl<'a, 'b> Sem<'a, 'b> {
             "xs1".into(),
             v_arr(vec![v_str("xs1-0"), v_num(1.0), v_vnode("xs1-2")]),
         ));
+        bound.push((
+            "fxs".into(),
+            v_fn("fxs", v_arr(vec![v_str("fxs-0"), v_vnode("fxs-1")])),
+        ));
         bound.push(("C1".into(), v_comp("C1")));
         bound.push(("C2".into(), v_comp("C2")));
         bound.push((
@@ -1084,7 +1088,10 @@ impl<'a, 'b> Sem<'a, 'b> {
                         self.n_exprs += 1;
                         Ex::src(format!("[t({k})]"), Cat::ArrLit)
                     } else {
-                        Ex::src(self.c.choose(&["xs1", "[x, y]", "[]"]), Cat::Other)
+                        Ex::src(
+                            self.c.choose(&["xs1", "[x, y]", "[]", "fxs()", "(b1 ? xs1 : [])", "fxs()"]),
+                            Cat::Other,
+                        )
                     })
                 }
             };
